@@ -159,3 +159,9 @@ def check(ctx):
                    "integer reaches the output through a lossless From<%s> with no arithmetic on the way" % src,
                    where=f.where(bb), detail={"value": show(a)[:120]}, sample={"fn": f.key, "value": show(a)[:120], "via": full})
     ctx.floor("R-4", "widening sites", nw, 9)
+
+
+def thorough(ctx):
+    """re-derive the facts about the pinned ciborium that this property leans on (DESIGN section 9)"""
+    from rules import audit
+    audit.audit(ctx, "R-audit", ['integers'])
